@@ -32,6 +32,7 @@ type orderCtx struct {
 	valObj  types.Object
 	carried map[types.Object]bool // variables declared outside the loop and assigned inside it
 	collect map[types.Object]bool // slices appended to
+	mapKeys map[string]string     // map expression → key expression written in the body
 	leaks   []string
 }
 
@@ -289,6 +290,19 @@ func (oc *orderCtx) assign(x *ast.AssignStmt, underKeyEq bool) {
 				if rhs != nil && oc.mentions(rhs, oc.carriedScalars(), nil) {
 					oc.leak("map write %s depends on loop-carried state", exprStr(l))
 				}
+				// m2[K] = V is order-insensitive when distinct iterations cannot write different values under
+				// one key: K is the loop key itself (injective), or V does not depend on the iteration.
+				if rhs != nil && !underKeyEq && oc.dependsOnIteration(rhs) {
+					if !oc.injectiveKey(ix.Index) {
+						oc.leak("map write %s uses a computed key: two iterations may collide on it with different values (last writer wins in map order)", exprStr(l))
+					}
+					// several writes into one map must agree on the key expression, or their key sets may overlap
+					mobj := exprStr(ix.X)
+					if prev, ok := oc.mapKeys[mobj]; ok && prev != exprStr(ix.Index) {
+						oc.leak("map %s is written under two different key expressions (%s and %s) in one iteration: the key sets may overlap, and then the value kept depends on map order", mobj, prev, exprStr(ix.Index))
+					}
+					oc.mapKeys[mobj] = exprStr(ix.Index)
+				}
 				continue
 			}
 			// slice element write by computed index: insensitive when the index does not depend on carried state
@@ -382,7 +396,7 @@ func (oc *orderCtx) carriedScalars() map[types.Object]bool {
 // classifyMapRange decides one `range` over a map.
 func classifyMapRange(p *core.Prog, fi *core.FuncInfo, rs *ast.RangeStmt) mapRange {
 	info := fi.Pkg.TypesInfo
-	oc := &orderCtx{pk: fi.Pkg, info: info, fi: fi, rs: rs, carried: map[types.Object]bool{}, collect: map[types.Object]bool{}}
+	oc := &orderCtx{pk: fi.Pkg, info: info, fi: fi, rs: rs, carried: map[types.Object]bool{}, collect: map[types.Object]bool{}, mapKeys: map[string]string{}}
 	if rs.Key != nil {
 		oc.keyObj = core.ObjOf(info, rs.Key)
 	}
@@ -516,4 +530,124 @@ func isSortFunc(f *types.Func) bool {
 		return true
 	}
 	return false
+}
+
+// dependsOnIteration: e mentions the loop key/value or a variable declared inside the loop body.
+func (oc *orderCtx) dependsOnIteration(e ast.Expr) bool {
+	found := false
+	ast.Inspect(e, func(n ast.Node) bool {
+		if id, ok := n.(*ast.Ident); ok {
+			if o := oc.info.Uses[id]; o != nil && (o == oc.keyObj || o == oc.valObj || oc.declaredInside(o)) {
+				if _, isVar := o.(*types.Var); isVar {
+					found = true
+				}
+			}
+		}
+		return true
+	})
+	return found
+}
+
+// injectiveKey: the written key determines the loop key — it is the loop key, a pointer/identity taken from
+// the loop value that is itself keyed (v.Field where the map is keyed by that field is not provable), or a
+// concatenation of a loop-invariant prefix with the loop key using a separator is NOT accepted (prefixes can collide).
+func (oc *orderCtx) injectiveKey(k ast.Expr) bool {
+	k = ast.Unparen(k)
+	if oc.keyObj != nil && core.ObjOf(oc.info, k) == oc.keyObj {
+		return true
+	}
+	// invariant + "sep" + key (+ invariant): injective in the key because everything else is fixed during the loop
+	if be, ok := k.(*ast.BinaryExpr); ok && be.Op == token.ADD {
+		nkey := 0
+		okAll := true
+		var walk func(e ast.Expr)
+		walk = func(e ast.Expr) {
+			e = ast.Unparen(e)
+			if b, ok := e.(*ast.BinaryExpr); ok && b.Op == token.ADD {
+				walk(b.X)
+				walk(b.Y)
+				return
+			}
+			if oc.keyObj != nil && core.ObjOf(oc.info, e) == oc.keyObj {
+				nkey++
+				return
+			}
+			if oc.dependsOnIteration(e) || oc.mentions(e, oc.carried, nil) {
+				okAll = false
+			}
+		}
+		walk(be)
+		return okAll && nkey == 1
+	}
+	// inverse of a constant map literal whose values are pairwise distinct (or whose duplicated values are
+	// re-assigned explicitly after the loop)
+	if oc.valObj != nil && core.ObjOf(oc.info, k) == oc.valObj {
+		return oc.inverseOfLiteralOK()
+	}
+	return false
+}
+
+// inverseOfLiteralOK: the ranged map is a package-level variable initialised with a literal of constant
+// keys and values; every value that occurs more than once is assigned explicitly (constant key) after the loop.
+func (oc *orderCtx) inverseOfLiteralOK() bool {
+	mv, ok := core.ObjOf(oc.info, oc.rs.X).(*types.Var)
+	if !ok || mv.Pkg() == nil || mv.Parent() != mv.Pkg().Scope() {
+		return false
+	}
+	// find the literal
+	var lit *ast.CompositeLit
+	var litInfo *types.Info
+	for _, f := range oc.pk.Syntax {
+		ast.Inspect(f, func(n ast.Node) bool {
+			vs, ok := n.(*ast.ValueSpec)
+			if !ok {
+				return true
+			}
+			for i, nm := range vs.Names {
+				if oc.pk.TypesInfo.Defs[nm] == types.Object(mv) && i < len(vs.Values) {
+					if cl, ok := vs.Values[i].(*ast.CompositeLit); ok {
+						lit, litInfo = cl, oc.pk.TypesInfo
+					}
+				}
+			}
+			return true
+		})
+	}
+	if lit == nil {
+		return false
+	}
+	count := map[string]int{}
+	for _, el := range lit.Elts {
+		kv, ok := el.(*ast.KeyValueExpr)
+		if !ok {
+			return false
+		}
+		tv, ok := litInfo.Types[kv.Value]
+		if !ok || tv.Value == nil {
+			return false
+		}
+		count[tv.Value.ExactString()]++
+	}
+	// explicit re-assignments after the loop in the same function: <target>[CONST] = …
+	fixed := map[string]bool{}
+	ast.Inspect(oc.fi.Decl.Body, func(n ast.Node) bool {
+		as, ok := n.(*ast.AssignStmt)
+		if !ok || as.Pos() < oc.rs.End() {
+			return true
+		}
+		for _, l := range as.Lhs {
+			if ix, ok := ast.Unparen(l).(*ast.IndexExpr); ok {
+				if tv, ok := oc.info.Types[ix.Index]; ok && tv.Value != nil {
+					fixed[tv.Value.ExactString()] = true
+				}
+			}
+		}
+		return true
+	})
+	for v, n := range count {
+		if n > 1 && !fixed[v] {
+			return false
+		}
+	}
+	return true
 }
